@@ -94,15 +94,22 @@ def isLeafB (pm : List Path) (p : Path) : Bool :=
 
 /-! ### errors -/
 
-/-- the violations of the path's own rule, as codes -/
-def violations (rules : List Rule) (p : Path) : List Bytes :=
+/-- an error that ought to be reported: where, which code, and which paths' values it would print -/
+structure Want where
+  path : Path
+  code : Bytes
+  shows : List Path
+  deriving Repr, DecidableEq
+
+/-- the violations of the path's own rule -/
+def violations (rules : List Rule) (p : Path) : List Want :=
   match rules.find? (fun r => r.path == p) with
-  | some r => if r.resolves then r.tags.map (tagPrefix ++ ·) else []
+  | some r => if r.resolves then r.tags.map (fun v => ⟨p, tagPrefix ++ v.tag, v.shows⟩) else []
   | none => []
 
 /-- partial validation must report `(p, c)` iff this holds -/
 def Expected (pm : List Path) (rules : List Rule) (p : Path) (c : Bytes) : Prop :=
-  IsLeaf pm p ∧ c ∈ violations rules p
+  IsLeaf pm p ∧ ∃ w ∈ violations rules p, w.code = c
 
 /-! ### the oracle on observations -/
 
@@ -133,9 +140,8 @@ def errSorted : List FieldErr → Bool
 
 /-- the expected error list of partial validation in leaf order over the leaves that are within
     the configured field limit -/
-def expectedErrs (pm : List Path) (rules : List Rule) (o : Opts) : List (Path × Bytes) :=
-  ((sortPaths (pm.filter (isLeafB pm))).take (maxLeaves o)).flatMap fun p =>
-    (violations rules p).map fun c => (p, c)
+def expectedErrs (pm : List Path) (rules : List Rule) (o : Opts) : List Want :=
+  ((sortPaths (pm.filter (isLeafB pm))).take (maxLeaves o)).flatMap (violations rules)
 
 /-- What the statement demands of a returned error list, given the list `want` of errors that
     ought to be reported:
@@ -145,18 +151,22 @@ def expectedErrs (pm : List Path) (rules : List Rule) (o : Opts) : List (Path ×
     * capped — with a maximum configured and at most one violation per field the list is no longer
       than the maximum; `Truncated` only when the maximum was reached;
     * ordered by (path, code);
-    * redaction — an error whose path the redactor covers hides its value. -/
-def errorsOK (want : List (Path × Bytes)) (o : Opts) (singleRule : Bool) (obs : Option Result) : Bool :=
+    * redaction — an error hides its value if the redactor covers its path or the path of any
+      value that printing the reported value would reveal. -/
+def errorsOK (want : List Want) (o : Opts) (singleRule : Bool) (obs : Option Result) : Bool :=
   let fields := match obs with | some r => r.fields | none => []
   let trunc := match obs with | some r => r.truncated | none => false
   let got := fields.map fun e => (e.path, e.code)
-  let missing := want.filter fun w => !got.contains w
-  got.all want.contains &&
+  let wantPC := want.map fun w => (w.path, w.code)
+  let missing := wantPC.filter fun w => !got.contains w
+  got.all wantPC.contains &&
   (missing.isEmpty || (trunc && o.maxErrors > 0 && fields.length ≥ o.maxErrors)) &&
   (!(o.maxErrors > 0 && singleRule) || fields.length ≤ o.maxErrors) &&
   (!trunc || (o.maxErrors > 0 && fields.length ≥ o.maxErrors)) &&
   (match obs with | some r => !r.fields.isEmpty | none => true) &&
   errSorted fields &&
-  fields.all fun e => !o.redacted.contains e.path || e.hidden
+  fields.all fun e =>
+    e.hidden || !(o.redacted.contains e.path ||
+      want.any fun w => w.path == e.path && w.code == e.code && w.shows.any o.redacted.contains)
 
 end Rivaas.Presence
